@@ -19,7 +19,8 @@ refuted (`request_one_response_full_fails`, known finding D19 `C02/request-id-tr
 `request_answered_with_truncated_id` says what happens instead.
 
 Hypotheses that are explicit (and why):
-* handler behaviours complete exactly once (`Beh` has no "never" / "twice" member);
+* handler bodies call their completion function at most once and complete or panic (`Beh` has no "never" /
+  "twice" member; complete-then-panic and a completion function that panics ARE members: section (7));
 * a back-end reply that is not the `msgs.Response` built by `ProcessForwardMsg`
   (wrong `SessionId`/`ClientReqId`) is dropped by the front — theorem
   `mismatched_reply_dropped` states that silent path; `ProcessForwardMsg` itself always
@@ -653,5 +654,121 @@ example : serve c0 s1 ⟨5, "hall.zoob.okboom", .valid 3⟩ =
 example : serve c0 s1 ⟨5, "gate.zoob.hang", .valid 3⟩ = [.respond 0 7 5 .error] := by decide
 
 end shared
+
+/-! ## (7) `CallMethod` / `SafeCall`: panics around the completion (repaired defect D23)
+
+The synchronous frame of a request handler (`callMethod`, Model/ClientServe.lean): the handler gets a
+wrapper that records a completion that WENT THROUGH; `SafeCall`'s recover completes with the error
+only if none did.  The theorems are about every body (any list of acts), not about the zoo. -/
+
+/-- number of times the body calls its completion function -/
+def completions : List Act → Nat
+  | [] => 0
+  | .complete _ _ :: rest => completions rest + 1
+  | .panic :: rest => completions rest
+
+theorem runFrame_no_completion (body : List Act) (f : Frame) (h : completions body = 0) :
+    (runFrame body f).1 = f := by
+  induction body generalizing f with
+  | nil => rfl
+  | cons a rest ih =>
+    cases a with
+    | panic => rfl
+    | complete r thru => simp [completions] at h
+
+/-- the flag says exactly "a completion went through" -/
+theorem runFrame_completed_iff (body : List Act) (f : Frame) (hf : f.completed = true ↔ f.calls ≠ []) :
+    (runFrame body f).1.completed = true ↔ (runFrame body f).1.calls ≠ [] := by
+  induction body generalizing f with
+  | nil => exact hf
+  | cons a rest ih =>
+    cases a with
+    | panic => exact hf
+    | complete r thru =>
+      cases thru with
+      | false => simpa [runFrame] using hf
+      | true =>
+        simp only [runFrame, if_true]
+        exact ih _ (by simp)
+
+/-- EXACTLY ONE completion reaches `cbFunc` for every handler body that calls its completion function
+at most once and does not return silently from an empty frame: whether it completes and returns,
+panics before completing, completes and THEN panics (D23), or its completion function itself panics
+(the result cannot be marshalled: the completion did not go through, `SafeCall` reports the failure). -/
+theorem callmethod_exactly_one (body : List Act) (hne : body ≠ []) (hone : completions body ≤ 1) :
+    (callMethod true body).length = 1 := by
+  cases body with
+  | nil => exact absurd rfl hne
+  | cons a rest =>
+    cases a with
+    | panic => simp [callMethod, runFrame]
+    | complete r thru =>
+      cases thru with
+      | false => simp [callMethod, runFrame]
+      | true =>
+        have h0 : completions rest = 0 := by simp [completions] at hone; omega
+        have hf := runFrame_no_completion rest ⟨true, [] ++ [r]⟩ h0
+        simp only [callMethod, runFrame, if_true]
+        split <;> simp_all
+
+/-- `SafeCall` never ADDS a completion to one that went through — for every body, also one that calls
+its completion function several times. -/
+theorem safecall_adds_nothing_after_completion (body : List Act) (h : (runFrame body {}).1.calls ≠ []) :
+    callMethod true body = (runFrame body {}).1.calls := by
+  have hc := (runFrame_completed_iff body {} (by simp)).2 h
+  simp [callMethod, hc]
+
+/-- a frame that ends in a panic never leaves the request without a completion -/
+theorem panicked_frame_is_completed (body : List Act) (h : (runFrame body {}).2 = true) :
+    callMethod true body ≠ [] := by
+  by_cases hc : (runFrame body {}).1.calls = []
+  · have : ¬ (runFrame body {}).1.completed = true := fun hcomp =>
+      (runFrame_completed_iff body {} (by simp)).1 hcomp hc
+    simp [callMethod, h, this]
+  · rw [safecall_adds_nothing_after_completion body hc]; exact hc
+
+/-- the per-message model's table of behaviours IS `callMethod` on each behaviour's frame -/
+theorem behResult_is_callMethod (svc g m : String) (v : Nat) (b : Beh) (hs : b.sync = true) :
+    callMethod true (bodyOf svc g m v b) = [(behResult svc g m v b).2] ∧ (behResult svc g m v b).1 = 0 := by
+  cases b <;> simp [Beh.sync] at hs <;> simp [callMethod, runFrame, bodyOf, behResult]
+
+/-- D23 as it was (the code before 7b326e6, `guard = false`): complete-then-panic was completed twice -/
+theorem d23_witness (r : Result) : callMethod false [.complete r true, .panic] = [r, .error] := by
+  simp [callMethod, runFrame]
+
+example : callMethod true [.complete .blank true, .panic] = [.blank] := by decide
+example : callMethod true [.complete .blank false] = [.error] := by decide
+example : completions [.complete .blank true, .panic] ≤ 1 ∧ [Act.complete .blank true, .panic] ≠ [] := by decide
+-- outside `callmethod_exactly_one`: a silent frame, a body that completes twice
+example : callMethod true [] = [] ∧ (callMethod true [.complete .blank true, .complete .error true]).length = 2 := by decide
+example : (runFrame [.complete .blank true, .panic] {}).1.calls ≠ [] ∧ (runFrame [.complete .blank false] {}).2 = true := by decide
+
+/-- A handler that completes and then panics in the same frame: exactly one response, the handler's
+result, on both paths (the exactly-one theorems no longer exclude it). -/
+theorem complete_then_panic_one_response (c : Cfg) (s : Sess) (msg : ClientMsg) (hid : msg.id ≠ 0) (hlt : msg.id < idWrap)
+    (svc g m : String) (v : Nat) (h : served c s msg = some (svc, g, m, v, .okboom)) :
+    serve c s msg = [.invoke svc g m v, .respond 0 s.sid msg.id (.data svc g m v)] := by
+  rw [(request_served_by_target c s msg hid hlt svc g m v .okboom h).2]
+  by_cases ht : (splitClientRoute msg.route).1 = c.frontType <;>
+    simp [behResult, requestTimeout, ht, wireLocal, wireBack]
+
+/-- A handler whose completion function panics on the result: exactly one response, an error, on both paths. -/
+theorem completion_panic_gets_error (c : Cfg) (s : Sess) (msg : ClientMsg) (hid : msg.id ≠ 0) (hlt : msg.id < idWrap)
+    (svc g m : String) (v : Nat) (h : served c s msg = some (svc, g, m, v, .mboom)) :
+    serve c s msg = [.invoke svc g m v, .respond 0 s.sid msg.id .error] := by
+  rw [(request_served_by_target c s msg hid hlt svc g m v .mboom h).2]
+  simp [behResult, requestTimeout]
+
+section frameExamples
+def cF : Cfg := tieCfg true
+def sF : Sess := ⟨7, some "chat-1", true⟩
+example : served cF sF ⟨5, "gate.zoo.okboom", .valid 3⟩ = some ("gate-1", "zoo", "okboom", 3, .okboom) := by decide
+example : served cF sF ⟨5, "chat.zoo.mboom", .valid 3⟩ = some ("chat-1", "zoo", "mboom", 3, .mboom) := by decide
+example : serve cF sF ⟨5, "gate.zoo.okboom", .valid 3⟩ =
+    [.invoke "gate-1" "zoo" "okboom" 3, .respond 0 7 5 (.data "gate-1" "zoo" "okboom" 3)] := by decide
+example : serve cF sF ⟨5, "gate.zoo.mboom", .valid 3⟩ = [.invoke "gate-1" "zoo" "mboom" 3, .respond 0 7 5 .error] := by decide
+example : serve cF sF ⟨5, "chat.zoo.mboom", .valid 3⟩ = [.invoke "chat-1" "zoo" "mboom" 3, .respond 0 7 5 .error] := by decide
+example : serve cF sF ⟨0, "gate.zoo.okboom", .valid 3⟩ = [.invoke "gate-1" "zoo" "okboom" 3] := by decide
+end frameExamples
 
 end Cell2v.Props.C02
